@@ -274,5 +274,5 @@ def judge(load, ranges, content, n, rpc, indexers):
         if pos + size > len(content):
             bad.append(f"request [{pos}, {pos + size}) reaches beyond the file ({len(content)} bytes)")
     out.append(("confined", not bad, "every request lies inside the byte span of one touched chunk and inside the file", bad[0] if bad else ""))
-    out.append(("one-file", all(o[0] == "IMG-X" for o in load.opens) and len(load.opens) <= 1, "the image file is opened once, nothing else", f"opens during the load: {load.opens}"))
+    out.append(("one-file", all(o[0] == "IMG-X" for o in load.opens), "only the image file is opened during the load", f"files opened during the load: {load.opens} - the load touches something else than the image file"))
     return out
